@@ -3,9 +3,11 @@
 //
 // Reads a script (ndjson, one call per line: {"op":..,"a":{..}}) on stdin, performs the call on the
 // real xtl objects, and prints the same line extended with
-//   "res": {"kind","has","val","d"}  what the call returned (d = number of Probe operations the call
-//                                     evaluated: the delta of the global evaluation counter)
-//   "st":  {"r":[{"kind","has","val","ref":{"has","val"}}...], "evals":n}   all registers afterwards
+//   "res": {"kind","has","val","d","u"}  what the call returned (d = number of Probe operations the
+//                                     call evaluated: the delta of the global evaluation counter;
+//                                     u = for double-valued calls the SAME operation performed on the
+//                                     underlying doubles directly, else 0)
+//   "st":  {"r":[{"kind","has","val","ref":{"has","val"},"al":{"v","f"}}...], "evals":n}   all registers afterwards
 // It contains no oracle: it executes and prints.  Every operator / <cmath> name comes from the shared
 // operation table ops.def; the overload that is called for a given (operation, kinds of the operand
 // registers) is chosen by the C++ compiler exactly as in user code.
@@ -16,10 +18,22 @@
 //   optcr   xoptional<const Probe&, const bool&>        optvr   xoptional<Probe&, bool>
 //   masked  xmasked_value<Probe, bool>                  mref    xmasked_value<Probe&, bool&>
 //   dplain  double        dopt  xoptional<double, bool>        dmasked xmasked_value<double, bool>
-//           (real IEEE operands: small integers and NaN, written as NANV; only operations whose result on
-//            such operands is again an integer, NaN or a bool are dispatched to them)
+//           (real IEEE operands incl. NaN, infinities, fractions; see enc())
+//   mo      xmasked_value<xoptional<Probe, bool>, bool>   (the two families nested: a masked optional)
+//   po      xoptional<Probe, bool> used as the "plain scalar" operand of a call of the mo family
 // Reference kinds close over per-register backing cells (heap allocated, so ASan sees stray accesses);
-// "ref" in the projection is the content of those cells read directly.
+// "ref" in the projection is the content of those cells read directly.  Two registers may close over
+// the same cells (Alias); "al" names, for the value cell and the flag cell, the lowest register that
+// shares it.
+//
+// A call that the script asks for but that this tree does not offer (e.g. an assignment between two
+// closure types that is no longer accepted) is reported with res.kind = "absent"; the runner decides
+// what that means.  A crash, a sanitizer report, an uncaught exception or a call that exceeds its CPU
+// limit ends the trace with a Crash event; the runner restarts the driver at the next execution.
+//
+// Build switches: -DLIFTED_PART=n (compile one of the eight parts), -DLIFTED_OPS_DEF="file" (an
+// operation table with some rows removed: degraded build against a tree where an overload does not
+// compile), -DLIFTED_NO_HOUSE (leave out the housekeeping calls beyond construction and accessors).
 #include <xtl/xoptional.hpp>
 #include <xtl/xmasked_value.hpp>
 #include "probe.hpp"
@@ -35,10 +49,18 @@
 #endif
 #include <iostream>
 #include <memory>
+#include <sstream>
 #include <string>
 #include <type_traits>
 #include <cmath>
+#include <cstring>
 #include <limits>
+#include <csignal>
+#include <sys/time.h>
+
+#ifndef LIFTED_OPS_DEF
+#define LIFTED_OPS_DEF "ops.def"
+#endif
 
 using pr::Probe;
 using Opt = xtl::xoptional<Probe, bool>;
@@ -49,29 +71,55 @@ using Msk = xtl::xmasked_value<Probe, bool>;
 using MRef = xtl::xmasked_value<Probe&, bool&>;
 using DOpt = xtl::xoptional<double, bool>;
 using DMsk = xtl::xmasked_value<double, bool>;
+using MO = xtl::xmasked_value<Opt, bool>;
 
-// doubles in the trace: integers as themselves, NaN as NANV, anything else as NONINT
-constexpr int NANV = 2147480000, NONINT = 2147480001;
+// ---------------------------------------------------------------- numbers in the trace
+// doubles: integers up to 2e9 as themselves, NaN as NANV, the infinities as PINFV / NINFV, every other value
+// as a hash of its bit pattern in HASH0 .. HASH0+HASHN-1 (identity of inexact values stays visible);
+// the value of a missing inner optional (mo / po) as NAV
+constexpr int NANV = 2147480000, NONINT = 2147480001, PINFV = 2147480002, NINFV = 2147480003, NAV = 2147470000;
+constexpr int HASH0 = 2000000001;
+constexpr unsigned long long HASHN = 147000000ULL;
 static int enc(double x)
 {
     if (std::isnan(x)) return NANV;
+    if (std::isinf(x)) return x > 0 ? PINFV : NINFV;
     if (x == std::floor(x) && std::fabs(x) <= 2000000000.0) return int(x);
-    return NONINT;
+    unsigned long long b;
+    std::memcpy(&b, &x, sizeof b);
+    b ^= b >> 33; b *= 0xff51afd7ed558ccdULL; b ^= b >> 33; b *= 0xc4ceb9fe1a85ec53ULL; b ^= b >> 33;
+    return HASH0 + int(b % HASHN);
 }
-static double dec(long long v) { return v == NANV ? std::numeric_limits<double>::quiet_NaN() : double(v); }
+// operand values of double registers: a small integer, NANV, or an index into a table of remarkable doubles
+constexpr int DTAB0 = 1000000;
+static const double DTAB[] = {0.5, -0.5, 1.5, -2.5, 0.1, 1.0 / 3.0, 1e308, -1e308, 5e-324, 1e-310, 2.2250738585072014e-308,
+                              9007199254740993.0, 4503599627370496.5, 3.141592653589793, -0.75, 1e-5,
+                              std::numeric_limits<double>::infinity(), -std::numeric_limits<double>::infinity(), -0.0, 1.7976931348623157e308};
+constexpr int DTABN = int(sizeof(DTAB) / sizeof(DTAB[0]));
+[[noreturn]] static void script_error(const char* what, const std::string& detail = "")
+{
+    std::fflush(stdout);
+    std::fprintf(stderr, "script: %s %s\n", what, detail.c_str());
+    std::exit(3);
+}
+static double dec(long long v)
+{
+    if (v == NANV) return std::numeric_limits<double>::quiet_NaN();
+    if (v >= DTAB0 && v < DTAB0 + DTABN) return DTAB[v - DTAB0];
+    if (v < -1000 || v > 1000) script_error("double operand out of range");
+    return double(v);
+}
 // the numeric content of a value of either value type
 static int num(const Probe& p) { return p.v; }
 static int num(const int& p) { return p; }
 static int num(const double& p) { return enc(p); }
+static int num(const bool& p) { return p ? 1 : 0; }
+template <class CT, class CB> static int num(const xtl::xoptional<CT, CB>& p);
+template <class T> static int num(const T&) { return NONINT; }      // a value type the harness does not know
+template <class CT, class CB> static int num(const xtl::xoptional<CT, CB>& p) { return bool(p.has_value()) ? num(p.value()) : NAV; }
 static void put(Probe& p, long long v) { p = Probe(int(v)); }
 static void put(int& p, long long v) { p = int(v); }
 static void put(double& p, long long v) { p = dec(v); }
-
-[[noreturn]] static void script_error(const char* what, const std::string& detail = "")
-{
-    std::fprintf(stderr, "script: %s %s\n", what, detail.c_str());
-    std::exit(3);
-}
 
 // ---------------------------------------------------------------- static description of the kinds
 enum fam_t { F_PLAIN = 0, F_OPT = 1, F_MSK = 2 };
@@ -88,12 +136,13 @@ template <> struct kinfo<MRef>  : kbase<Probe, F_MSK, true, false, false> {};
 template <> struct kinfo<double> : kbase<double, F_PLAIN, true, false, true> {};
 template <> struct kinfo<DOpt>  : kbase<double, F_OPT, true, false, true> {};
 template <> struct kinfo<DMsk>  : kbase<double, F_MSK, true, false, true> {};
+template <> struct kinfo<MO>    : kbase<Opt, F_MSK, true, false, false> {};
 template <class T> using ki = kinfo<std::decay_t<T>>;
 
 // a lifted call exists for an operand pattern iff at least one operand is lifted and the
 // xoptional and xmasked_value families are not mixed
 template <class... A> struct pat;
-template <> struct pat<> { static constexpr bool opt = false, msk = false, allint = true, anyd = false, alld = true; };
+template <> struct pat<> { static constexpr bool opt = false, msk = false, allint = true, anyd = false, alld = true, anymo = false; };
 template <class A, class... R> struct pat<A, R...>
 {
     static constexpr bool opt = ki<A>::fam == F_OPT || pat<R...>::opt;
@@ -101,10 +150,23 @@ template <class A, class... R> struct pat<A, R...>
     static constexpr bool allint = ki<A>::is_int && pat<R...>::allint;
     static constexpr bool anyd = ki<A>::isd || pat<R...>::anyd;      // some operand is double-valued
     static constexpr bool alld = ki<A>::isd && pat<R...>::alld;
+    static constexpr bool anymo = std::is_same<std::decay_t<A>, MO>::value || pat<R...>::anymo;
 };
-// (table-driven dispatch is for the Probe-valued kinds; the double-valued ones have their own short list)
-template <class... A> using lifted_ok = std::integral_constant<bool, (pat<A...>::opt != pat<A...>::msk) && !pat<A...>::anyd>;
+template <class... A> using lifted_ok = std::integral_constant<bool, (pat<A...>::opt != pat<A...>::msk) && !pat<A...>::anyd && !pat<A...>::anymo>;
 template <class... A> using lifted_ok_d = std::integral_constant<bool, (pat<A...>::opt != pat<A...>::msk) && pat<A...>::alld>;
+// the mo family: operands are MO (masked optional) or Opt standing in the place of the plain scalar
+template <class T> struct is_mix_operand : std::integral_constant<bool, std::is_same<std::decay_t<T>, MO>::value || std::is_same<std::decay_t<T>, Opt>::value> {};
+template <class... A> struct all_mix : std::true_type {};
+template <class A, class... R> struct all_mix<A, R...> : std::integral_constant<bool, is_mix_operand<A>::value && all_mix<R...>::value> {};
+template <class... A> using lifted_ok_mix = std::integral_constant<bool, pat<A...>::anymo && all_mix<A...>::value>;
+
+// operations that do not exist for double operands
+constexpr bool streq(const char* a, const char* b) { return *a == *b && (*a == 0 || streq(a + 1, b + 1)); }
+constexpr bool int_only(const char* n)
+{
+    return streq(n, "mod") || streq(n, "band") || streq(n, "bor") || streq(n, "bxor") || streq(n, "bitnot") ||
+           streq(n, "mod_eq") || streq(n, "band_eq") || streq(n, "bor_eq") || streq(n, "bxor_eq");
+}
 
 // ---------------------------------------------------------------- observations
 struct obs
@@ -112,16 +174,28 @@ struct obs
     const char* kind;
     bool has;
     int val;
+    int u;
+    obs(const char* k = "", bool h = false, int v = 0, int uu = 0) : kind(k), has(h), val(v), u(uu) {}
 };
-static obs cap(const Opt& x) { return {"opt", x.has_value(), x.value().v}; }
-static obs cap(const xtl::xoptional<bool, bool>& x) { return {"optb", x.has_value(), x.value() ? 1 : 0}; }
-static obs cap(const Msk& x) { return {"masked", x.visible(), x.value().v}; }
-static obs cap(const xtl::xmasked_value<bool, bool>& x) { return {"maskedb", x.visible(), x.value() ? 1 : 0}; }
-static obs cap(const bool& b) { return {"bool", true, b ? 1 : 0}; }
-static obs cap(const Probe& p) { return {"plain", true, p.v}; }
-static obs cap(const DOpt& x) { return {"dopt", x.has_value(), enc(x.value())}; }
-static obs cap(const DMsk& x) { return {"dmasked", x.visible(), enc(x.value())}; }
-static obs cap(const double& p) { return {"dplain", true, enc(p)}; }
+static const obs VOID_OBS("void", true, 0);
+static const obs ABSENT("absent", false, 0);
+// the kind of a result is read off its static type: the family from the class template, the suffix from the value type
+template <class V> struct rk { static const char* o() { return "opt?"; } static const char* m() { return "masked?"; } };
+template <> struct rk<Probe> { static const char* o() { return "opt"; } static const char* m() { return "masked"; } };
+template <> struct rk<bool> { static const char* o() { return "optb"; } static const char* m() { return "maskedb"; } };
+template <> struct rk<double> { static const char* o() { return "dopt"; } static const char* m() { return "dmasked"; } };
+template <> struct rk<Opt> { static const char* o() { return "optopt"; } static const char* m() { return "mo"; } };
+template <> struct rk<xtl::xoptional<bool, bool>> { static const char* o() { return "optoptb"; } static const char* m() { return "mob"; } };
+template <class CT, class CB> static obs cap(const xtl::xoptional<CT, CB>& x) { return obs(rk<std::decay_t<CT>>::o(), bool(x.has_value()), num(x.value())); }
+template <class T, class B> static obs cap(const xtl::xmasked_value<T, B>& x) { return obs(rk<std::decay_t<T>>::m(), bool(x.visible()), num(x.value())); }
+static obs cap(const bool& b) { return obs("bool", true, b ? 1 : 0); }
+static obs cap(const Probe& p) { return obs("plain", true, p.v); }
+static obs cap(const double& p) { return obs("dplain", true, enc(p)); }
+template <class T> static obs cap(const T&) { return obs("other", true, NONINT); }
+// the underlying double of an operand of the double family
+static double raw(const double& x) { return x; }
+static double raw(const DOpt& x) { return x.value(); }
+static double raw(const DMsk& x) { return x.value(); }
 
 // ---------------------------------------------------------------- registers
 struct slot
@@ -129,25 +203,28 @@ struct slot
     std::string kind = "plain";
     Probe pv;
     int iv = 0;
-    std::unique_ptr<Opt> opt;
+    std::unique_ptr<Opt> opt;      // kinds opt and po
     std::unique_ptr<ORef> oref;
     std::unique_ptr<OCRef> ocref;
     std::unique_ptr<OVRef> ovref;
     std::unique_ptr<Msk> msk;
     std::unique_ptr<MRef> mref;
+    std::unique_ptr<MO> mo;
     double dv = 0;
     std::unique_ptr<DOpt> dopt;
     std::unique_ptr<DMsk> dmsk;
-    std::unique_ptr<Probe> bv;   // backing cells of the reference kinds
-    std::unique_ptr<bool> bf;
+    std::shared_ptr<Probe> bv;   // backing cells of the reference kinds (shared between aliasing registers)
+    std::shared_ptr<bool> bf;
 
     void clear()
     {
-        opt.reset(); oref.reset(); ocref.reset(); ovref.reset(); msk.reset(); mref.reset();
+        opt.reset(); oref.reset(); ocref.reset(); ovref.reset(); msk.reset(); mref.reset(); mo.reset();
         dopt.reset(); dmsk.reset(); bv.reset(); bf.reset();
         pv = Probe(0); iv = 0; dv = 0; kind = "plain";
     }
     void backing(int v, bool h) { bv.reset(new Probe(v)); bf.reset(new bool(h)); }
+    bool vref() const { return kind == "optref" || kind == "optcr" || kind == "optvr" || kind == "mref"; }
+    bool fref() const { return kind == "optref" || kind == "optcr" || kind == "mref"; }
 };
 
 struct machine
@@ -166,7 +243,7 @@ struct machine
         slot& s = at(i);
         if (s.kind == "plain") return f(s.pv);
         if (s.kind == "int") return f(s.iv);
-        if (s.kind == "opt") return f(*s.opt);
+        if (s.kind == "opt" || s.kind == "po") return f(*s.opt);
         if (s.kind == "optref") return f(*s.oref);
         if (s.kind == "optcr") return f(*s.ocref);
         if (s.kind == "optvr") return f(*s.ovref);
@@ -175,13 +252,36 @@ struct machine
         if (s.kind == "dplain") return f(s.dv);
         if (s.kind == "dopt") return f(*s.dopt);
         if (s.kind == "dmasked") return f(*s.dmsk);
+        if (s.kind == "mo") return f(*s.mo);
         script_error("bad kind", s.kind);
+    }
+    // the same for the operands of a call of the mo family (MO or Opt only: fewer instantiations)
+    template <class F> obs visit_mix(long long i, F&& f)
+    {
+        slot& s = at(i);
+        if (s.kind == "mo") return f(*s.mo);
+        if (s.kind == "po" || s.kind == "opt") return f(*s.opt);
+        script_error("operand of a masked-optional call must be mo or po", s.kind);
     }
 
     // ---- storing a result into register d (0 = discard)
-    void store(long long d, const Opt& x) { slot& s = at(d); s.clear(); s.kind = "opt"; s.opt.reset(new Opt(x)); }
-    void store(long long d, const Msk& x) { slot& s = at(d); s.clear(); s.kind = "masked"; s.msk.reset(new Msk(x)); }
-    template <class T> void store(long long, const T&) { script_error("this result type cannot be stored in a register"); }
+    template <class CT, class CB> void store_o(std::true_type, long long d, const xtl::xoptional<CT, CB>& x)
+    {
+        slot& s = at(d); s.clear(); s.kind = "opt"; s.opt.reset(new Opt(Probe(x.value()), bool(x.has_value())));
+    }
+    template <class T, class B> void store_m(std::true_type, long long d, const xtl::xmasked_value<T, B>& x)
+    {
+        slot& s = at(d); s.clear(); s.kind = "masked"; s.msk.reset(new Msk(Probe(x.value()), bool(x.visible())));
+    }
+    template <class X> void store_o(std::false_type, long long d, const X&) { at(d).clear(); }   // (the event's kind already differs from what the spec wants)
+    template <class X> void store_m(std::false_type, long long d, const X&) { at(d).clear(); }
+    template <class CT, class CB> void store(long long d, const xtl::xoptional<CT, CB>& x) { store_o(std::is_same<std::decay_t<CT>, Probe>(), d, x); }
+    template <class T, class B> void store(long long d, const xtl::xmasked_value<T, B>& x) { store_m(std::is_same<std::decay_t<T>, Probe>(), d, x); }
+    void store(long long d, const MO& x)
+    {
+        slot& s = at(d); s.clear(); s.kind = "mo"; s.mo.reset(new MO(Opt(Probe(x.value().value()), bool(x.value().has_value())), bool(x.visible())));
+    }
+    template <class T> void store(long long d, const T&) { at(d).clear(); }
 
     template <class R> obs finish(long long d, const R& result)
     {
@@ -193,6 +293,15 @@ struct machine
     // ---- guarded calls: the generic lambda body is only instantiated for patterns xtl lifts
     template <class F, class... A> obs call(std::true_type, long long d, F& f, A&... a) { return finish(d, f(a...)); }
     template <class F, class... A> obs call(std::false_type, long long, F&, A&...) { script_error("operand pattern is not a lifted call"); }
+    // double family: also perform the same operation on the underlying doubles
+    template <class F, class... A> obs call_d(std::true_type, F& f, A&... a)
+    {
+        int u = num(f(raw(a)...));
+        obs o = finish(0, f(a...));
+        o.u = u;
+        return o;
+    }
+    template <class F, class... A> obs call_d(std::false_type, F&, A&...) { script_error("operand pattern is not a lifted call on doubles"); }
 
     template <template <class...> class OK, class F> obs unaryT(long long i, long long d, F f)
     {
@@ -217,41 +326,116 @@ struct machine
     template <class F> obs unary(long long i, long long d, F f) { return unaryT<lifted_ok>(i, d, f); }
     template <class F> obs binary(long long i, long long j, long long d, F f) { return binaryT<lifted_ok>(i, j, d, f); }
     template <class F> obs ternary(long long i, long long j, long long k, long long d, F f) { return ternaryT<lifted_ok>(i, j, k, d, f); }
+    // double family (EN = the operation exists for doubles)
+    template <bool EN, class F> obs unary_d(long long i, F f)
+    {
+        return visit(i, [&](auto& a) { return this->call_d(std::integral_constant<bool, EN && lifted_ok_d<decltype(a)>::value>{}, f, a); });
+    }
+    template <bool EN, class F> obs binary_d(long long i, long long j, F f)
+    {
+        return visit(i, [&](auto& a) {
+            return this->visit(j, [&](auto& b) { return this->call_d(std::integral_constant<bool, EN && lifted_ok_d<decltype(a), decltype(b)>::value>{}, f, a, b); });
+        });
+    }
+    template <bool EN, class F> obs ternary_d(long long i, long long j, long long k, F f)
+    {
+        return visit(i, [&](auto& a) {
+            return this->visit(j, [&](auto& b) {
+                return this->visit(k, [&](auto& c) {
+                    return this->call_d(std::integral_constant<bool, EN && lifted_ok_d<decltype(a), decltype(b), decltype(c)>::value>{}, f, a, b, c);
+                });
+            });
+        });
+    }
+    // mo family
+    template <class F> obs unary_mix(long long i, long long d, F f)
+    {
+        return visit_mix(i, [&](auto& a) { return this->call(lifted_ok_mix<decltype(a)>{}, d, f, a); });
+    }
+    template <class F> obs binary_mix(long long i, long long j, long long d, F f)
+    {
+        return visit_mix(i, [&](auto& a) {
+            return this->visit_mix(j, [&](auto& b) { return this->call(lifted_ok_mix<decltype(a), decltype(b)>{}, d, f, a, b); });
+        });
+    }
+    template <class F> obs ternary_mix(long long i, long long j, long long k, long long d, F f)
+    {
+        return visit_mix(i, [&](auto& a) {
+            return this->visit_mix(j, [&](auto& b) {
+                return this->visit_mix(k, [&](auto& c) { return this->call(lifted_ok_mix<decltype(a), decltype(b), decltype(c)>{}, d, f, a, b, c); });
+            });
+        });
+    }
     bool is_d(long long i) { const std::string& k = at(i).kind; return k == "dplain" || k == "dopt" || k == "dmasked"; }
+    bool is_mix(long long i) { const std::string& k = at(i).kind; return k == "mo" || k == "po"; }
 
     // compound assignment: destination lifted and writable, source of the same family or plain
     template <class F, class A, class B> obs cassign(std::true_type, F& f, A& a, B& b) { f(a, b); return project(a); }
     template <class F, class A, class B> obs cassign(std::false_type, F&, A&, B&) { script_error("not a lifted compound assignment"); }
-    template <template <class...> class OK, class F> obs compoundT(long long i, long long j, F f)
+    template <bool EN, template <class...> class OK, class F> obs compoundT(long long i, long long j, F f)
     {
         return visit(i, [&](auto& a) {
             return this->visit(j, [&](auto& b) {
-                using ok = std::integral_constant<bool, OK<decltype(a), decltype(b)>::value && ki<decltype(a)>::fam != F_PLAIN && ki<decltype(a)>::writable>;
+                using ok = std::integral_constant<bool, EN && OK<decltype(a), decltype(b)>::value && ki<decltype(a)>::fam != F_PLAIN && ki<decltype(a)>::writable>;
                 return this->cassign(ok{}, f, a, b);
             });
         });
     }
-
-    template <class F> obs compound(long long i, long long j, F f) { return compoundT<lifted_ok>(i, j, f); }
+    template <class F> obs compound(long long i, long long j, F f) { return compoundT<true, lifted_ok>(i, j, f); }
+    template <class F> obs compound_mix(long long i, long long j, F f)
+    {
+        return visit_mix(i, [&](auto& a) {
+            return this->visit_mix(j, [&](auto& b) {
+                using ok = std::integral_constant<bool, std::is_same<std::decay_t<decltype(a)>, MO>::value>;
+                return this->cassign(ok{}, f, a, b);
+            });
+        });
+    }
+    // double family: what the same compound assignment does to a plain double
+    template <bool EN, class F> obs compound_d(long long i, long long j, F f)
+    {
+        int u = 0;
+        visit(i, [&](auto& a) {
+            return this->visit(j, [&](auto& b) {
+                using ok = std::integral_constant<bool, EN && lifted_ok_d<decltype(a), decltype(b)>::value>;
+                u = this->under_c(ok{}, f, a, b);
+                return obs();
+            });
+        });
+        obs o = compoundT<EN, lifted_ok_d>(i, j, f);
+        o.u = u;
+        return o;
+    }
+    template <class F, class A, class B> int under_c(std::true_type, F& f, A& a, B& b) { double x = raw(a); const double y = raw(b); f(x, y); return enc(x); }
+    template <class F, class A, class B> int under_c(std::false_type, F&, A&, B&) { return 0; }
 
     // ---- reading one register through its public accessors
-    template <class CT, class CB> static obs project(const xtl::xoptional<CT, CB>& x) { return {"", x.has_value(), num(x.value())}; }
-    template <class T, class B> static obs project(const xtl::xmasked_value<T, B>& x) { return {"", x.visible(), num(x.value())}; }
-    static obs project(const Probe& p) { return {"", true, p.v}; }
-    static obs project(const int& p) { return {"", true, p}; }
-    static obs project(const double& p) { return {"", true, enc(p)}; }
+    template <class CT, class CB> static obs project(const xtl::xoptional<CT, CB>& x) { return obs("", bool(x.has_value()), num(x.value())); }
+    template <class T, class B> static obs project(const xtl::xmasked_value<T, B>& x) { return obs("", bool(x.visible()), num(x.value())); }
+    static obs project(const Probe& p) { return obs("", true, p.v); }
+    static obs project(const int& p) { return obs("", true, p); }
+    static obs project(const double& p) { return obs("", true, enc(p)); }
 
     std::string proj(long long i)
     {
         slot& s = at(i);
-        obs o = visit(i, [&](auto& a) { return project(a); });
+        obs o = s.kind == "po" ? obs("", true, num(*s.opt)) : visit(i, [&](auto& a) { return project(a); });
         vj::out w;
         w.ks("kind", s.kind).kb("has", o.has).kv("val", o.val);
         vj::out ref;
-        bool vref = s.kind == "optref" || s.kind == "optcr" || s.kind == "optvr" || s.kind == "mref";
-        bool fref = s.kind == "optref" || s.kind == "optcr" || s.kind == "mref";
-        ref.kb("has", fref ? *s.bf : false).kv("val", vref ? s.bv->v : 0);
+        ref.kb("has", s.fref() ? *s.bf : false).kv("val", s.vref() ? s.bv->v : 0);
         w.kraw("ref", ref.obj());
+        // the lowest register closing over the same value cell / flag cell
+        long long av = i, af = i;
+        for (long long k = (long long)r.size() - 1; k >= 1; --k)
+        {
+            slot& t = r[size_t(k)];
+            if (s.vref() && t.vref() && t.bv == s.bv) av = k;
+            if (s.fref() && t.fref() && t.bf == s.bf) af = k;
+        }
+        vj::out al;
+        al.kv("v", av).kv("f", af);
+        w.kraw("al", al.obj());
         return w.obj();
     }
 
@@ -263,56 +447,108 @@ struct machine
         if (how == "plain") { s.kind = "plain"; s.pv = Probe(v); }
         else if (how == "int") { s.kind = "int"; s.iv = v; }
         else if (how == "opt2") { s.kind = "opt"; s.opt.reset(new Opt(Probe(v), bool(has))); }
+        else if (how == "optref") { s.backing(v, has); s.kind = "optref"; s.oref.reset(new ORef(*s.bv, *s.bf)); }
+        else if (how == "optcr") { s.backing(v, has); s.kind = "optcr"; s.ocref.reset(new OCRef(*s.bv, *s.bf)); }
+        else if (how == "optvr") { s.backing(v, false); s.kind = "optvr"; s.ovref.reset(new OVRef(*s.bv, bool(has))); }
+        else if (how == "masked2") { s.kind = "masked"; s.msk.reset(new Msk(Probe(v), bool(has))); }
+        else if (how == "mref") { s.backing(v, has); s.kind = "mref"; s.mref.reset(new MRef(*s.bv, *s.bf)); }
+        else if (how == "dplain") { s.kind = "dplain"; s.dv = dec(v); }
+        else if (how == "dopt2") { s.kind = "dopt"; s.dopt.reset(new DOpt(dec(v), bool(has))); }
+        else if (how == "dmasked2") { s.kind = "dmasked"; s.dmsk.reset(new DMsk(dec(v), bool(has))); }
+        // a masked optional: v = NAV builds a missing inner optional
+        else if (how == "mo2") { s.kind = "mo"; s.mo.reset(new MO(v == NAV ? Opt(Probe(0), false) : Opt(Probe(v), true), bool(has))); }
+        else if (how == "po2") { s.kind = "po"; s.opt.reset(v == NAV ? new Opt(Probe(0), false) : new Opt(Probe(v), true)); }
+#ifndef LIFTED_NO_HOUSE
         else if (how == "opt1") { s.kind = "opt"; s.opt.reset(new Opt(Probe(v))); }
         else if (how == "optdef") { s.kind = "opt"; s.opt.reset(new Opt()); }
         else if (how == "missing") { s.kind = "opt"; s.opt.reset(new Opt(xtl::missing<Probe>())); }
         else if (how == "optional_vv") { s.kind = "opt"; s.opt.reset(new Opt(xtl::optional(Probe(v), bool(has)))); }
-        else if (how == "optref") { s.backing(v, has); s.kind = "optref"; s.oref.reset(new ORef(*s.bv, *s.bf)); }
         else if (how == "optional_rr") { s.backing(v, has); s.kind = "optref"; s.oref.reset(new ORef(xtl::optional(*s.bv, *s.bf))); }
-        else if (how == "optcr") { s.backing(v, has); s.kind = "optcr"; s.ocref.reset(new OCRef(*s.bv, *s.bf)); }
-        else if (how == "optvr") { s.backing(v, false); s.kind = "optvr"; s.ovref.reset(new OVRef(*s.bv, bool(has))); }
         else if (how == "optional_rv") { s.backing(v, false); s.kind = "optvr"; s.ovref.reset(new OVRef(xtl::optional(*s.bv, bool(has)))); }
-        else if (how == "masked2") { s.kind = "masked"; s.msk.reset(new Msk(Probe(v), bool(has))); }
         else if (how == "masked1") { s.kind = "masked"; s.msk.reset(new Msk(Probe(v))); }
         else if (how == "maskeddef") { s.kind = "masked"; s.msk.reset(new Msk()); }
         else if (how == "maskedf") { s.kind = "masked"; s.msk.reset(new Msk(xtl::masked<Probe>())); }
         else if (how == "masked_value1") { s.kind = "masked"; s.msk.reset(new Msk(xtl::masked_value(Probe(v)))); }
         else if (how == "masked_value2") { s.kind = "masked"; s.msk.reset(new Msk(xtl::masked_value(Probe(v), bool(has)))); }
-        else if (how == "mref") { s.backing(v, has); s.kind = "mref"; s.mref.reset(new MRef(*s.bv, *s.bf)); }
         else if (how == "masked_value_rr") { s.backing(v, has); s.kind = "mref"; s.mref.reset(new MRef(xtl::masked_value(*s.bv, *s.bf))); }
-        else if (how == "dplain") { s.kind = "dplain"; s.dv = dec(v); }
-        else if (how == "dopt2") { s.kind = "dopt"; s.dopt.reset(new DOpt(dec(v), bool(has))); }
-        else if (how == "dmasked2") { s.kind = "dmasked"; s.dmsk.reset(new DMsk(dec(v), bool(has))); }
+        // converting constructors: a value closure from a temporary of another closure type (copy and move form)
+        else if (how == "opt_from_ref") { Probe pv(v); bool pf = has; ORef src(pv, pf); s.kind = "opt"; s.opt.reset(new Opt(xtl::as_const(src))); }
+        else if (how == "opt_from_cref") { Probe pv(v); bool pf = has; OCRef src(pv, pf); s.kind = "opt"; s.opt.reset(new Opt(src)); }
+        else if (how == "opt_from_vr") { Probe pv(v); OVRef src(pv, bool(has)); s.kind = "opt"; s.opt.reset(new Opt(std::move(src))); }
+        else if (how == "opt_from_int") { xtl::xoptional<int, bool> src{int(v), bool(has)}; s.kind = "opt"; s.opt.reset(new Opt(src)); }
+        else if (how == "opt_from_intmv") { xtl::xoptional<int, bool> src{int(v), bool(has)}; s.kind = "opt"; s.opt.reset(new Opt(std::move(src))); }
+#endif
         else script_error("unknown load", how);
+        obs o = s.kind == "po" ? obs("", true, num(*s.opt)) : visit(i, [&](auto& a) { return project(a); });
+        o.kind = s.kind.c_str();
+        return o;
+    }
+    // register i becomes a reference closure over the backing cells of register j
+    obs alias(long long i, const std::string& how, long long j, bool has)
+    {
+        if (i == j) script_error("alias of itself");
+        slot& s = at(i);
+        slot& t = at(j);
+        if (!t.vref()) script_error("alias needs a reference kind as its source");
+        std::shared_ptr<Probe> bv = t.bv;
+        std::shared_ptr<bool> bf = t.bf;
+        bool tf = t.fref();
+        s.clear();
+        s.bv = bv;
+        if (how == "optvr") { s.bf.reset(new bool(false)); s.kind = "optvr"; s.ovref.reset(new OVRef(*s.bv, bool(has))); }
+        else
+        {
+            if (!tf) script_error("flag alias needs a source whose flag is a reference");
+            s.bf = bf;
+            if (how == "optref") { s.kind = "optref"; s.oref.reset(new ORef(*s.bv, *s.bf)); }
+            else if (how == "optcr") { s.kind = "optcr"; s.ocref.reset(new OCRef(*s.bv, *s.bf)); }
+            else if (how == "mref") { s.kind = "mref"; s.mref.reset(new MRef(*s.bv, *s.bf)); }
+            else script_error("unknown alias", how);
+        }
         obs o = visit(i, [&](auto& a) { return project(a); });
         o.kind = s.kind.c_str();
         return o;
     }
 
     // ---- accessors
-    template <class CT, class CB> static obs get_member(const xtl::xoptional<CT, CB>& x) { return {"get", bool(x.has_value()), num(x.value())}; }
-    template <class T, class B> static obs get_member(const xtl::xmasked_value<T, B>& x) { return {"get", bool(x.visible()), num(x.value())}; }
+    template <class CT, class CB> static obs get_member(const xtl::xoptional<CT, CB>& x) { return obs("get", bool(x.has_value()), num(x.value())); }
+    template <class T, class B> static obs get_member(const xtl::xmasked_value<T, B>& x) { return obs("get", bool(x.visible()), num(x.value())); }
     template <class T> static obs get_member(const T&) { script_error("no member accessors on a plain operand"); }
-    template <class CT, class CB> static obs get_free(xtl::xoptional<CT, CB>& x) { return {"get", bool(xtl::has_value(x)), num(xtl::value(x))}; }
-    static obs get_free(Probe& x) { return {"get", bool(xtl::has_value(x)), xtl::value(x).v}; }
+#ifndef LIFTED_NO_HOUSE
+    template <class CT, class CB> static obs get_free(xtl::xoptional<CT, CB>& x) { return obs("get", bool(xtl::has_value(x)), num(xtl::value(x))); }
+    static obs get_free(Probe& x) { return obs("get", bool(xtl::has_value(x)), xtl::value(x).v); }
     template <class T> static obs get_free(T&) { script_error("free accessors are defined for xoptional and plain values"); }
     template <class CT, class CB> static obs get_rvalue(const xtl::xoptional<CT, CB>& x)
     {
         xtl::xoptional<CT, CB> c1(x), c2(x);
-        return {"get", bool(std::move(c1).has_value()), num(std::decay_t<CT>(std::move(c2).value()))};
+        return obs("get", bool(std::move(c1).has_value()), num(std::decay_t<CT>(std::move(c2).value())));
     }
     template <class T, class B> static obs get_rvalue(const xtl::xmasked_value<T, B>& x)
     {
         // (copies are taken from a const lvalue: the copy constructor, not the converting template)
         xtl::xmasked_value<T, B> c1(x), c2(x);
-        return {"get", bool(std::move(c1).visible()), num(std::decay_t<T>(std::move(c2).value()))};
+        return obs("get", bool(std::move(c1).visible()), num(std::decay_t<T>(std::move(c2).value())));
     }
     static obs get_rvalue(const Probe&) { script_error("no rvalue accessors on a plain operand"); }
     static obs get_rvalue(const int&) { script_error("no rvalue accessors on a plain operand"); }
     static obs get_rvalue(const double&) { script_error("no rvalue accessors on a plain operand"); }
     // xmasked_value converts implicitly to its value type
-    template <class T, class B> static obs get_conv(xtl::xmasked_value<T, B>& x) { std::decay_t<T> p = x; return {"get", bool(x.visible()), num(p)}; }
+    template <class T, class B> static obs get_conv(xtl::xmasked_value<T, B>& x) { std::decay_t<T> p = x; return obs("get", bool(x.visible()), num(p)); }
     template <class T> static obs get_conv(T&) { script_error("conversion accessor is defined for xmasked_value"); }
+    // operator<< : "N/A" / "masked" for a missing value, the value's own text otherwise
+    static obs parse_stream(const std::string& t)
+    {
+        if (t == "N/A" || t == "masked") return obs("get", false, 0);
+        if (t == "nan" || t == "-nan") return obs("get", true, NANV);
+        char* end = nullptr;
+        double d = std::strtod(t.c_str(), &end);
+        if (end == t.c_str() || *end) return obs("get", true, NONINT);
+        return obs("get", true, enc(d));
+    }
+    template <class X> static obs stream_of(const X& x) { std::ostringstream os; os.precision(17); os << x; return parse_stream(os.str()); }
+    template <class CT, class CB> static obs get_stream(const xtl::xoptional<CT, CB>& x) { return stream_of(x); }
+    template <class T, class B> static obs get_stream(const xtl::xmasked_value<T, B>& x) { return stream_of(x); }
+    template <class T> static obs get_stream(const T&) { script_error("stream accessor is defined for lifted operands"); }
 
     template <class CT, class CB> static void set_flag(xtl::xoptional<CT, CB>& x, bool b) { x.has_value() = b; }
     template <class T, class B> static void set_flag(xtl::xmasked_value<T, B>& x, bool b) { x.visible() = b; }
@@ -322,6 +558,7 @@ struct machine
     template <class CT, class CB> static void set_val(xtl::xoptional<CT, CB>& x, int v) { put(x.value(), v); }
     template <class T, class B> static void set_val(xtl::xmasked_value<T, B>& x, int v) { put(x.value(), v); }
     static void set_val(OCRef&, int) { script_error("const closure"); }
+    static void set_val(MO&, int) { script_error("SetVal is not scripted for masked optionals"); }
     static void set_val(Probe& x, int v) { x = Probe(v); }
     static void set_val(int& x, int v) { x = v; }
     static void set_val(double& x, int v) { x = dec(v); }
@@ -329,13 +566,14 @@ struct machine
     // plain assignment of a value / of another register
     template <class A> static void assign_val(std::true_type, A& a, int v) { typename ki<A>::vtype t; put(t, v); a = t; }
     template <class A> static void assign_val(std::false_type, A&, int) { script_error("AssignVal needs a writable lifted destination"); }
-    template <class A, class B> static void assign_reg(std::true_type, A& a, const B& b) { a = b; }
-    template <class A, class B> static void assign_reg(std::false_type, A&, const B&) { script_error("AssignReg: this pair is not assignable"); }
+    template <class A, class B> static obs assign_reg(std::true_type, A& a, const B& b) { a = b; return VOID_OBS; }
+    template <class A, class B> static obs assign_reg(std::false_type, A&, const B&) { return ABSENT; }   // this tree does not accept the assignment
 
     template <class A> static void swap_member(std::true_type, A& a, A& b) { a.swap(b); }
     template <class A> static void swap_member(std::false_type, A&, A&) { script_error("swap: not swappable"); }
     template <class A> static void swap_free(std::true_type, A& a, A& b) { swap(a, b); }
     template <class A> static void swap_free(std::false_type, A&, A&) { script_error("free swap is defined for xmasked_value"); }
+#endif
 
     // the table-driven dispatchers (defined after the class; compiled as separate parts, see LIFTED_PART)
     obs do_unary(const std::string& f, long long i, long long d);
@@ -344,12 +582,17 @@ struct machine
     obs do_compare(const std::string& f, long long i, long long j);
     obs do_ternary(const std::string& f, long long i, long long j, long long k, long long d);
     obs do_compound(const std::string& f, long long i, long long j);
-    // the same calls on double-valued registers (a short hand-written list: integer-exact operations)
-    obs do_unary_d(const std::string& f, long long i, long long d);
-    obs do_binary_d(const std::string& f, long long i, long long j, long long d);
+    // the same calls on double-valued registers
+    obs do_unary_d(const std::string& f, long long i);
+    obs do_binary_d(const std::string& f, long long i, long long j);
     obs do_compare_d(const std::string& f, long long i, long long j);
-    obs do_ternary_d(const std::string& f, long long i, long long j, long long k, long long d);
+    obs do_ternary_d(const std::string& f, long long i, long long j, long long k);
     obs do_compound_d(const std::string& f, long long i, long long j);
+    // ... and on masked optionals
+    obs do_unary_mix(const std::string& f, long long i, long long d);
+    obs do_binary_mix(const std::string& f, long long i, long long j, long long d);
+    obs do_ternary_mix(const std::string& f, long long i, long long j, long long k, long long d);
+    obs do_compound_mix(const std::string& f, long long i, long long j);
 
     // ---- one script event; returns the observation
     obs step(const vj::value& e)
@@ -362,31 +605,53 @@ struct machine
             r.clear();
             r.resize(size_t(n) + 1);
             pr::counter() = 0;
-            return {"void", true, 0};
+            return VOID_OBS;
         }
         if (op == "Load") return load(a.num("i"), a.str("how"), a.at("has").b, int(a.num("v")));
+        if (op == "Alias") return alias(a.num("i"), a.str("how"), a.num("j"), a.at("has").b);
         if (op == "Unary")
-            return is_d(a.num("i")) ? do_unary_d(a.str("f"), a.num("i"), a.num("d")) : do_unary(a.str("f"), a.num("i"), a.num("d"));
+        {
+            long long i = a.num("i");
+            return is_d(i) ? do_unary_d(a.str("f"), i) : is_mix(i) ? do_unary_mix(a.str("f"), i, a.num("d")) : do_unary(a.str("f"), i, a.num("d"));
+        }
         if (op == "Binary")
-            return is_d(a.num("i")) || is_d(a.num("j")) ? do_binary_d(a.str("f"), a.num("i"), a.num("j"), a.num("d"))
-                                                        : do_binary(a.str("f"), a.num("i"), a.num("j"), a.num("d"));
+        {
+            long long i = a.num("i"), j = a.num("j");
+            if (is_d(i) || is_d(j)) return do_binary_d(a.str("f"), i, j);
+            if (is_mix(i) || is_mix(j)) return do_binary_mix(a.str("f"), i, j, a.num("d"));
+            return do_binary(a.str("f"), i, j, a.num("d"));
+        }
         if (op == "Compare")
-            return is_d(a.num("i")) || is_d(a.num("j")) ? do_compare_d(a.str("f"), a.num("i"), a.num("j")) : do_compare(a.str("f"), a.num("i"), a.num("j"));
+        {
+            long long i = a.num("i"), j = a.num("j");
+            if (is_d(i) || is_d(j)) return do_compare_d(a.str("f"), i, j);
+            if (is_mix(i) || is_mix(j)) return do_binary_mix(a.str("f"), i, j, 0);
+            return do_compare(a.str("f"), i, j);
+        }
         if (op == "Ternary")
-            return is_d(a.num("i")) || is_d(a.num("j")) || is_d(a.num("k"))
-                       ? do_ternary_d(a.str("f"), a.num("i"), a.num("j"), a.num("k"), a.num("d"))
-                       : do_ternary(a.str("f"), a.num("i"), a.num("j"), a.num("k"), a.num("d"));
+        {
+            long long i = a.num("i"), j = a.num("j"), k = a.num("k");
+            if (is_d(i) || is_d(j) || is_d(k)) return do_ternary_d(a.str("f"), i, j, k);
+            if (is_mix(i) || is_mix(j) || is_mix(k)) return do_ternary_mix(a.str("f"), i, j, k, a.num("d"));
+            return do_ternary(a.str("f"), i, j, k, a.num("d"));
+        }
         if (op == "Compound")
-            return is_d(a.num("i")) || is_d(a.num("j")) ? do_compound_d(a.str("f"), a.num("i"), a.num("j")) : do_compound(a.str("f"), a.num("i"), a.num("j"));
+        {
+            long long i = a.num("i"), j = a.num("j");
+            if (is_d(i) || is_d(j)) return do_compound_d(a.str("f"), i, j);
+            if (is_mix(i) || is_mix(j)) return do_compound_mix(a.str("f"), i, j);
+            return do_compound(a.str("f"), i, j);
+        }
         if (op == "Select")
         {
             const vj::value& c = a.at("c");
             long long i = a.num("i"), j = a.num("j"), d = a.num("d");
             bool lifted = c.at("lifted").b, chas = c.at("has").b, cval = c.at("val").b;
+            if (is_mix(i) || is_mix(j)) script_error("select is not scripted for masked optionals");
             return visit(i, [&](auto& x) {
                 return this->visit(j, [&](auto& y) {
                     using P = pat<decltype(x), decltype(y)>;
-                    constexpr bool onetype = P::alld || !P::anyd;                                  // one value type per call
+                    constexpr bool onetype = (P::alld || !P::anyd) && !P::anymo;                  // one value type per call
                     using okl = std::integral_constant<bool, !P::msk && !P::allint && onetype>;   // condition is an xoptional<bool>
                     using okp = std::integral_constant<bool, !P::msk && P::opt && onetype>;       // condition is a plain bool
                     if (lifted)
@@ -403,21 +668,38 @@ struct machine
         {
             long long i = a.num("i");
             int dv = int(a.num("dv"));
+            if (is_mix(i)) script_error("value_or is not scripted for masked optionals");
+            // form lv: x.value_or(d) on the register itself; rv: on an rvalue (a moved temporary copy); crv: on a const rvalue
+            const std::string form = a.has("form") ? a.str("form") : std::string("lv");
             return visit(i, [&](auto& x) {
                 using ok = std::integral_constant<bool, ki<decltype(x)>::fam == F_OPT>;
-                auto f = [&](const auto& u) { typename ki<decltype(u)>::vtype t; put(t, dv); return u.value_or(t); };
+                auto f = [&](const auto& u) {
+                    typename ki<decltype(u)>::vtype t; put(t, dv);
+                    using U = std::decay_t<decltype(u)>;
+                    if (form == "rv") { U c(u); return std::move(c).value_or(t); }
+                    if (form == "crv") { const U c(u); return std::move(c).value_or(t); }
+                    return u.value_or(t);
+                };
                 return this->call(ok{}, 0, f, x);
             });
         }
+        if (op == "Get" && a.str("path") == "member")
+        {
+            long long i = a.num("i");
+            if (at(i).kind == "po") return obs("get", true, num(*at(i).opt));
+            return visit(i, [&](auto& x) { return get_member(x); });
+        }
+#ifndef LIFTED_NO_HOUSE
         if (op == "Get")
         {
             const std::string& path = a.str("path");
             long long i = a.num("i");
+            if (is_mix(i)) script_error("only the member accessors are scripted for masked optionals");
             return visit(i, [&](auto& x) {
-                if (path == "member") return get_member(x);
                 if (path == "free") return get_free(x);
                 if (path == "rvalue") return get_rvalue(x);
                 if (path == "conv") return get_conv(x);
+                if (path == "stream") return get_stream(x);
                 script_error("bad Get path", path);
             });
         }
@@ -425,43 +707,39 @@ struct machine
         {
             long long i = a.num("i");
             bool b = a.at("b").b;
-            return visit(i, [&](auto& x) { set_flag(x, b); return obs{"void", true, 0}; });
+            return visit(i, [&](auto& x) { set_flag(x, b); return VOID_OBS; });
         }
         if (op == "SetVal")
         {
             long long i = a.num("i");
             int v = int(a.num("v"));
-            return visit(i, [&](auto& x) { set_val(x, v); return obs{"void", true, 0}; });
-        }
-        if (op == "Poke")
-        {
-            // writes the referents of a reference closure directly (not through xtl)
-            slot& s = at(a.num("i"));
-            if (!s.bv) script_error("Poke needs a reference kind");
-            *s.bv = Probe(int(a.num("v")));
-            if (s.kind != "optvr") *s.bf = a.at("has").b;
-            return {"void", true, 0};
+            return visit(i, [&](auto& x) { set_val(x, v); return VOID_OBS; });
         }
         if (op == "AssignVal")
         {
             long long i = a.num("i");
             int v = int(a.num("v"));
+            if (is_mix(i)) script_error("AssignVal is not scripted for masked optionals");
             return visit(i, [&](auto& x) {
-                using ok = std::integral_constant<bool, ki<decltype(x)>::fam != F_PLAIN && ki<decltype(x)>::writable>;
+                using ok = std::integral_constant<bool, ki<decltype(x)>::fam != F_PLAIN && ki<decltype(x)>::writable && !pat<decltype(x)>::anymo>;
                 assign_val(ok{}, x, v);
-                return obs{"void", true, 0};
+                return VOID_OBS;
             });
         }
         if (op == "AssignReg")
         {
             long long i = a.num("i"), j = a.num("j");
+            if (is_mix(i) || is_mix(j)) script_error("AssignReg is not scripted for masked optionals");
             return visit(i, [&](auto& x) {
                 return this->visit(j, [&](auto& y) {
                     using X = std::decay_t<decltype(x)>;
                     using Y = std::decay_t<decltype(y)>;
-                    using ok = std::integral_constant<bool, ki<X>::fam != F_PLAIN && ki<X>::fam == ki<Y>::fam && ki<X>::isd == ki<Y>::isd && ki<X>::writable && std::is_assignable<X&, const Y&>::value>;
-                    assign_reg(ok{}, x, y);
-                    return obs{"void", true, 0};
+                    // what the script may ask for (the spec's enabling condition) ...
+                    constexpr bool wanted = ki<X>::fam != F_PLAIN && ki<X>::fam == ki<Y>::fam && ki<X>::isd == ki<Y>::isd && ki<X>::writable && !pat<X, Y>::anymo;
+                    if (!wanted) script_error("AssignReg: not a pair the spec enables");
+                    // ... and whether this tree accepts it
+                    using ok = std::integral_constant<bool, wanted && std::is_assignable<X&, const Y&>::value>;
+                    return assign_reg(ok{}, x, y);
                 });
             });
         }
@@ -472,19 +750,32 @@ struct machine
             slot& si = at(i);
             slot& sj = at(j);
             if (si.kind != sj.kind) script_error("swap needs two registers of the same kind");
+            if (is_mix(i)) script_error("Swap is not scripted for masked optionals");
             return visit(i, [&](auto& x) {
                 using X = std::decay_t<decltype(x)>;
                 // the second operand has the same static type: fetch it through the same accessor
                 X* other = nullptr;
-                this->visit(j, [&](auto& y) { other = pick_same<X>(std::is_same<X, std::decay_t<decltype(y)>>{}, y); return obs{"", true, 0}; });
+                this->visit(j, [&](auto& y) { other = pick_same<X>(std::is_same<X, std::decay_t<decltype(y)>>{}, y); return obs(); });
                 if (!other) script_error("swap: kinds differ");
                 using okm = std::integral_constant<bool, ki<X>::fam != F_PLAIN && ki<X>::writable>;
                 using okf = std::integral_constant<bool, ki<X>::fam == F_MSK>;
                 if (how == "member") swap_member(okm{}, x, *other);
                 else if (how == "free") swap_free(okf{}, x, *other);
                 else script_error("bad swap", how);
-                return obs{"void", true, 0};
+                return VOID_OBS;
             });
+        }
+#else
+        if (op == "Get" || op == "SetFlag" || op == "SetVal" || op == "AssignVal" || op == "AssignReg" || op == "Swap") return ABSENT;
+#endif
+        if (op == "Poke")
+        {
+            // writes the referents of a reference closure directly (not through xtl)
+            slot& s = at(a.num("i"));
+            if (!s.bv) script_error("Poke needs a reference kind");
+            *s.bv = Probe(int(a.num("v")));
+            if (s.kind != "optvr") *s.bf = a.at("has").b;
+            return VOID_OBS;
         }
         script_error("unknown op", op);
     }
@@ -500,10 +791,13 @@ struct machine
             if (line.empty()) continue;
             vj::value e = vj::parse(line);
             long long before = pr::counter();
+            // a call that does not return within its CPU budget ends the trace with a Crash event
+            struct itimerval tv; std::memset(&tv, 0, sizeof tv); tv.it_value.tv_sec = 5;
+            setitimer(ITIMER_VIRTUAL, &tv, nullptr);
             obs o = step(e);
             long long delta = e.str("op") == "Reset" ? 0 : pr::counter() - before;
             vj::out res;
-            res.ks("kind", o.kind).kb("has", o.has).kv("val", o.val).kv("d", delta);
+            res.ks("kind", o.kind).kb("has", o.has).kv("val", o.val).kv("d", delta).kv("u", o.u);
             std::string st = "{\"r\":[";
             for (size_t i = 1; i < r.size(); ++i) { if (i > 1) st += ','; st += proj((long long)i); }
             st += "],\"evals\":" + std::to_string(pr::counter()) + "}";
@@ -515,11 +809,14 @@ struct machine
 };
 
 // ---------------------------------------------------------------- table-driven dispatch
-// The driver can be compiled as one translation unit, or (faster) as five with -DLIFTED_PART=0..4.
+// The driver can be compiled as one translation unit, or (faster) as eight with -DLIFTED_PART=0..7.
 #ifndef LIFTED_PART
 #define LIFTED_ALL_PARTS 1
 #define LIFTED_PART (-1)
 #endif
+// the lifted <cmath> names are called unqualified, as a user would after `using namespace std`: for a lifted
+// operand ADL finds xtl's overload, for a plain double (the "underlying operation" of the double family) std's
+#define USTD(name) using std::name;
 
 #if defined(LIFTED_ALL_PARTS) || LIFTED_PART == 4
 obs machine::do_unary(const std::string& f, long long i, long long d)
@@ -527,58 +824,91 @@ obs machine::do_unary(const std::string& f, long long i, long long d)
 #define L_UNOP(name, tok, code, res) if (f == #name) return unary(i, d, [](const auto& x) { return tok x; });
 #define L_UFUN(name, code) if (f == #name) return unary(i, d, [](const auto& x) { return name(x); });
 #define L_UPRED(name, code) if (f == #name) return unary(i, d, [](const auto& x) { return name(x); });
-#include "ops.def"
+#include LIFTED_OPS_DEF
     script_error("unknown unary", f);
 }
 obs machine::do_compare(const std::string& f, long long i, long long j)
 {
 #define L_CMPOP(name, tok, code) if (f == #name) return binary(i, j, 0, [](const auto& x, const auto& y) { return x tok y; });
-#include "ops.def"
+#include LIFTED_OPS_DEF
+    script_error("unknown comparison", f);
+}
+#endif
+
+#if defined(LIFTED_ALL_PARTS) || LIFTED_PART == 5
+// double-valued registers: real IEEE operands through the same lifted overloads, every operation that exists for doubles
+obs machine::do_unary_d(const std::string& f, long long i)
+{
+#define L_UNOP(name, tok, code, res) if (f == #name) return unary_d<!int_only(#name)>(i, [](const auto& x) { return tok x; });
+#define L_UFUN(name, code) if (f == #name) return unary_d<true>(i, [](const auto& x) { USTD(name) return name(x); });
+#define L_UPRED(name, code) if (f == #name) return unary_d<true>(i, [](const auto& x) { USTD(name) return name(x); });
+#include LIFTED_OPS_DEF
+    script_error("unknown unary", f);
+}
+#endif
+
+#if defined(LIFTED_ALL_PARTS) || LIFTED_PART == 6
+obs machine::do_binary_d(const std::string& f, long long i, long long j)
+{
+#define L_BINOP(name, tok, code, res, sem) if (f == #name) return binary_d<!int_only(#name)>(i, j, [](const auto& x, const auto& y) { return x tok y; });
+#define L_BFUN(name, code) if (f == #name) return binary_d<true>(i, j, [](const auto& x, const auto& y) { USTD(name) return name(x, y); });
+#include LIFTED_OPS_DEF
+    script_error("unknown binary", f);
+}
+obs machine::do_compare_d(const std::string& f, long long i, long long j)
+{
+#define L_CMPOP(name, tok, code) if (f == #name) return binary_d<true>(i, j, [](const auto& x, const auto& y) { return x tok y; });
+#include LIFTED_OPS_DEF
     script_error("unknown comparison", f);
 }
 #endif
 
 #if defined(LIFTED_ALL_PARTS) || LIFTED_PART == 0
-// double-valued registers: real IEEE operands through the same lifted overloads
-obs machine::do_unary_d(const std::string& f, long long i, long long d)
+obs machine::do_ternary_d(const std::string& f, long long i, long long j, long long k)
 {
-#define DU(name, expr) if (f == #name) return unaryT<lifted_ok_d>(i, d, [](const auto& x) { return expr; });
-    DU(pos, +x) DU(neg, -x) DU(lognot, !x) DU(abs, abs(x)) DU(fabs, fabs(x)) DU(ceil, ceil(x)) DU(floor, floor(x))
-    DU(trunc, trunc(x)) DU(round, round(x)) DU(nearbyint, nearbyint(x)) DU(rint, rint(x))
-    DU(isnan, isnan(x)) DU(isinf, isinf(x)) DU(isfinite, isfinite(x))
-#undef DU
-    script_error("operation not dispatched to double operands", f);
-}
-obs machine::do_binary_d(const std::string& f, long long i, long long j, long long d)
-{
-#define DB(name, expr) if (f == #name) return binaryT<lifted_ok_d>(i, j, d, [](const auto& x, const auto& y) { return expr; });
-    DB(plus, x + y) DB(minus, x - y) DB(mul, x * y) DB(lt, x < y) DB(le, x <= y) DB(gt, x > y) DB(ge, x >= y)
-    DB(fmax, fmax(x, y)) DB(fmin, fmin(x, y))
-    script_error("operation not dispatched to double operands", f);
-}
-obs machine::do_compare_d(const std::string& f, long long i, long long j)
-{
-    const long long d = 0;
-    DB(eq, x == y) DB(ne, x != y)
-#undef DB
-    script_error("operation not dispatched to double operands", f);
-}
-#endif
-
-#if defined(LIFTED_ALL_PARTS) || LIFTED_PART == 4
-obs machine::do_ternary_d(const std::string& f, long long i, long long j, long long k, long long d)
-{
-    if (f == "fma") return ternaryT<lifted_ok_d>(i, j, k, d, [](const auto& x, const auto& y, const auto& z) { return fma(x, y, z); });
-    script_error("operation not dispatched to double operands", f);
+#define L_TFUN(name, code) if (f == #name) return ternary_d<true>(i, j, k, [](const auto& x, const auto& y, const auto& z) { USTD(name) return name(x, y, z); });
+#include LIFTED_OPS_DEF
+    script_error("unknown ternary", f);
 }
 obs machine::do_compound_d(const std::string& f, long long i, long long j)
 {
-    obs o{"", false, 0};
-    if (f == "plus_eq") o = compoundT<lifted_ok_d>(i, j, [](auto& x, const auto& y) { x += y; });
-    else if (f == "minus_eq") o = compoundT<lifted_ok_d>(i, j, [](auto& x, const auto& y) { x -= y; });
-    else script_error("operation not dispatched to double operands", f);
-    o.kind = at(i).kind.c_str();
-    return o;
+    obs o;
+#define L_ASGOP(name, tok, base) if (f == #name) { o = compound_d<!int_only(#name)>(i, j, [](auto& x, const auto& y) { x tok y; }); o.kind = at(i).kind.c_str(); return o; }
+#include LIFTED_OPS_DEF
+    script_error("unknown compound assignment", f);
+}
+#endif
+
+#if defined(LIFTED_ALL_PARTS) || LIFTED_PART == 7
+// masked optionals: xmasked_value<xoptional<Probe>> with bare xoptional<Probe> in the place of the plain scalar
+obs machine::do_unary_mix(const std::string& f, long long i, long long d)
+{
+#define L_UNOP(name, tok, code, res) if (f == #name) return unary_mix(i, d, [](const auto& x) { return tok x; });
+#define L_UFUN(name, code) if (f == #name) return unary_mix(i, d, [](const auto& x) { return name(x); });
+#define L_UPRED(name, code) if (f == #name) return unary_mix(i, d, [](const auto& x) { return name(x); });
+#include LIFTED_OPS_DEF
+    script_error("unknown unary", f);
+}
+obs machine::do_binary_mix(const std::string& f, long long i, long long j, long long d)
+{
+#define L_BINOP(name, tok, code, res, sem) if (f == #name) return binary_mix(i, j, d, [](const auto& x, const auto& y) { return x tok y; });
+#define L_CMPOP(name, tok, code) if (f == #name) return binary_mix(i, j, 0, [](const auto& x, const auto& y) { return x tok y; });
+#define L_BFUN(name, code) if (f == #name) return binary_mix(i, j, d, [](const auto& x, const auto& y) { return name(x, y); });
+#include LIFTED_OPS_DEF
+    script_error("unknown binary", f);
+}
+obs machine::do_ternary_mix(const std::string& f, long long i, long long j, long long k, long long d)
+{
+#define L_TFUN(name, code) if (f == #name) return ternary_mix(i, j, k, d, [](const auto& x, const auto& y, const auto& z) { return name(x, y, z); });
+#include LIFTED_OPS_DEF
+    script_error("unknown ternary", f);
+}
+obs machine::do_compound_mix(const std::string& f, long long i, long long j)
+{
+    obs o;
+#define L_ASGOP(name, tok, base) if (f == #name) { o = compound_mix(i, j, [](auto& x, const auto& y) { x tok y; }); o.kind = at(i).kind.c_str(); return o; }
+#include LIFTED_OPS_DEF
+    script_error("unknown compound assignment", f);
 }
 #endif
 
@@ -586,7 +916,7 @@ obs machine::do_compound_d(const std::string& f, long long i, long long j)
 obs machine::do_binary(const std::string& f, long long i, long long j, long long d)
 {
 #define L_BINOP(name, tok, code, res, sem) if (f == #name) return binary(i, j, d, [](const auto& x, const auto& y) { return x tok y; });
-#include "ops.def"
+#include LIFTED_OPS_DEF
     return do_binary_fun(f, i, j, d);
 }
 #endif
@@ -595,14 +925,14 @@ obs machine::do_binary(const std::string& f, long long i, long long j, long long
 obs machine::do_binary_fun(const std::string& f, long long i, long long j, long long d)
 {
 #define L_BFUN(name, code) if (f == #name) return binary(i, j, d, [](const auto& x, const auto& y) { return name(x, y); });
-#include "ops.def"
+#include LIFTED_OPS_DEF
     script_error("unknown binary", f);
 }
 obs machine::do_compound(const std::string& f, long long i, long long j)
 {
-    obs o{"", false, 0};
+    obs o;
 #define L_ASGOP(name, tok, base) if (f == #name) { o = compound(i, j, [](auto& x, const auto& y) { x tok y; }); o.kind = at(i).kind.c_str(); return o; }
-#include "ops.def"
+#include LIFTED_OPS_DEF
     script_error("unknown compound assignment", f);
 }
 #endif
@@ -611,15 +941,22 @@ obs machine::do_compound(const std::string& f, long long i, long long j)
 obs machine::do_ternary(const std::string& f, long long i, long long j, long long k, long long d)
 {
 #define L_TFUN(name, code) if (f == #name) return ternary(i, j, k, d, [](const auto& x, const auto& y, const auto& z) { return name(x, y, z); });
-#include "ops.def"
+#include LIFTED_OPS_DEF
     script_error("unknown ternary", f);
 }
 #endif
 
 #if defined(LIFTED_ALL_PARTS) || LIFTED_PART == 0
+static void on_cpu_limit(int)
+{
+    std::fflush(stdout);
+    vj::crash_line("cpu-limit");
+    _exit(0);
+}
 int main()
 {
     vj::install_crash_handlers();
+    std::signal(SIGVTALRM, on_cpu_limit);
     return machine().run();
 }
 #endif
